@@ -388,6 +388,11 @@ func (cr *ChunkReader) parseChunkHeaderBytes(header []byte, l *int) (int64, stri
 	if err != nil {
 		return cr.handleRdrErr(err, header)
 	}
+	if sig == "" {
+		// an empty signature would be taken for "no chunk pending
+		// verification" and the chunk would never be verified
+		return 0, "", 0, errInvalidChunkFormat
+	}
 
 	// read and parse the final chunk trailer and checksum
 	if chunkSize == 0 {
